@@ -27,9 +27,10 @@ def build(tmp):
     reads = []
     with pysam.AlignmentFile(unsorted, "wb", header=header) as out:
         k = 0
-        for flags in itertools.product((0, FDUP), (0, FQCFAIL), (0, FSUPP)):
+        for cls_i, flags in enumerate(itertools.product((0, FDUP), (0, FQCFAIL), (0, FSUPP))):
             for mapq in (0, 10, 19, 20, 30, 60):
-                for base in "ACGT":
+                # each flag class has its own base composition, so no two filters are interchangeable
+                for base in "ACGT"[: 1 + cls_i % 4] * (1 + cls_i // 2):
                     a = pysam.AlignedSegment()
                     a.query_name = "r%d" % k
                     k += 1
@@ -109,5 +110,136 @@ def check_count_kernels(tier, seed):
     return {"bound": "200 random base strings incl. N, gaps, lower case", "evaluations": ev, "distinct_nontrivial": ev, "failures": fails, "samples": [{"cases": ev}], "exhaustive": False}
 
 
-CHECKS = [check_depths, check_count_kernels]
+def _write_bam(tmp, name, sample, reads, seq):
+    header = {"HD": {"VN": "1.6", "SO": "coordinate"}, "SQ": [{"SN": "CHR1", "LN": len(seq)}], "RG": [{"ID": "rg" + sample, "SM": sample}]}
+    u = os.path.join(tmp, name + ".u.bam")
+    with pysam.AlignmentFile(u, "wb", header=header) as out:
+        for k, (start, bases) in enumerate(reads):
+            a = pysam.AlignedSegment()
+            a.query_name = "%s_%d" % (sample, k)
+            a.query_sequence = bases
+            a.flag = 0
+            a.reference_id = 0
+            a.reference_start = start
+            a.mapping_quality = 60
+            a.cigar = ((0, len(bases)),)
+            a.query_qualities = pysam.qualitystring_to_array("I" * len(bases))
+            a.set_tag("RG", "rg" + sample)
+            out.write(a)
+    b = os.path.join(tmp, name + ".bam")
+    pysam.sort("-o", b, u)
+    pysam.index(b)
+    return b
+
+
+def check_thresholds(tier, seed):
+    """write_vcf_block: an allele is listed iff it meets the individual and population thresholds, only
+    positions with >= 2 such alleles are emitted, REF is the reference base (REFMASKED if it failed), ALT by
+    decreasing mean sample frequency"""
+    import io
+    import sys
+
+    rng = np.random.default_rng(seed + 190)
+    tmp = tempfile.mkdtemp(prefix="verif_c19t_")
+    ev = nontriv = 0
+    fails = []
+    samples_out = []
+    try:
+        seq = "ACGT" * 10
+        ref = os.path.join(tmp, "ref.fa")
+        with open(ref, "w") as f:
+            f.write(">CHR1\n%s\n" % seq)
+        pysam.faidx(ref)
+        depths_per_sample = (5, 50, 40)
+        L = 12
+        start = 10
+        truth = np.zeros((L, 3, 4), dtype=int)
+        bams = []
+        for si, depth in enumerate(depths_per_sample):
+            reads = []
+            cols = []
+            for p in range(L):
+                refb = "ACGT".index(seq[start + p])
+                mix = rng.choice(["ref", "het", "rare", "alt", "tri"], p=[0.2, 0.3, 0.2, 0.15, 0.15])
+                if p < 3:
+                    # the same allele is frequent-but-shallow in the shallow sample and deep-but-rare in the
+                    # deep ones: no single individual meets both individual thresholds
+                    mix = "split"
+                if mix == "split":
+                    x = 0.4 if depth < 10 else 0.08
+                    w = (1 - x) * np.eye(4)[refb] + x * np.eye(4)[(refb + 2) % 4]
+                    col = np.full(depth, refb)
+                    col[: int(round(x * depth))] = (refb + 2) % 4
+                    cols.append(col)
+                    continue
+                if mix == "ref":
+                    w = np.eye(4)[refb]
+                elif mix == "het":
+                    w = 0.5 * np.eye(4)[refb] + 0.5 * np.eye(4)[(refb + 1) % 4]
+                elif mix == "rare":
+                    w = 0.92 * np.eye(4)[refb] + 0.08 * np.eye(4)[(refb + 2) % 4]
+                elif mix == "alt":
+                    w = np.eye(4)[(refb + 1) % 4]
+                else:
+                    w = 0.4 * np.eye(4)[refb] + 0.35 * np.eye(4)[(refb + 1) % 4] + 0.25 * np.eye(4)[(refb + 3) % 4]
+                cols.append(rng.choice(4, size=depth, p=w))
+            cols = np.array(cols)  # L x depth
+            for r in range(depth):
+                bases = "".join("ACGT"[cols[p, r]] for p in range(L))
+                reads.append((start, bases))
+                for p in range(L):
+                    truth[p, si, cols[p, r]] += 1
+            bams.append(_write_bam(tmp, "s%d" % si, "S%d" % si, reads, seq))
+        grid = list(itertools.product((0.0, 0.1, 0.3), (0, 20), (0.1, 0.3), (3, 1, 10), (1, 2, 3)))
+        if tier == "quick":
+            grid = grid[::3]
+        for maf, mad, ind_maf, ind_mad, min_ind in grid:
+            out = io.StringIO()
+            saved = sys.stdout
+            sys.stdout = out
+            try:
+                FS.write_vcf_block("CHR1", start, start + L, ref, bams, maf, mad, ind_maf, ind_mad, min_ind, 20, True, True, True)
+            finally:
+                sys.stdout = saved
+            got = {}
+            for line in out.getvalue().splitlines():
+                c = line.split("\t")
+                if len(c) > 7 and not line.startswith("#"):
+                    got[int(c[1])] = (c[3], c[4], "REFMASKED" in c[7])
+            exp = {}
+            for p in range(L):
+                d = truth[p].astype(float)
+                with np.errstate(divide="ignore", invalid="ignore"):
+                    fr = d / d.sum(axis=1, keepdims=True)
+                keep = ((fr >= ind_maf) & (d >= ind_mad)).sum(axis=0) >= min_ind
+                if maf > 0:
+                    keep &= fr.mean(axis=0) >= maf
+                if mad > 0:
+                    keep &= d.sum(axis=0) >= mad
+                if keep.sum() < 2:
+                    continue
+                refb = "ACGT".index(seq[start + p])
+                mean = np.where(keep, fr, 0.0).mean(axis=0)
+                alts = [a for a in range(4) if keep[a] and a != refb]
+                exp[start + p + 1] = (seq[start + p], alts, mean, not keep[refb])
+            ev += 1
+            nontriv += len(exp) not in (0, L)
+            inp = {"maf": maf, "mad": mad, "ind_maf": ind_maf, "ind_mad": ind_mad, "min_ind": min_ind, "depths": truth.tolist()}
+            if set(got) != set(exp):
+                if len(fails) < 3:
+                    fails.append({"key": "rt/find_snvs_positions_emitted", "check": "mchap.application.find_snvs.write_vcf_block", "input": inp, "observed": sorted(got), "expected": sorted(exp), "how": "positions with at least two alleles meeting the individual and population thresholds"})
+                continue
+            for pos, (refc, alts, mean, masked) in exp.items():
+                g = got[pos]
+                galts = ["ACGT".index(x) for x in g[1].split(",")] if g[1] != "." else []
+                ordered = all(mean[galts[i]] >= mean[galts[i + 1]] - 1e-12 for i in range(len(galts) - 1))
+                if (g[0] != refc or sorted(galts) != sorted(alts) or not ordered or g[2] != masked) and len(fails) < 3:
+                    fails.append({"key": "rt/find_snvs_alleles_listed", "check": "mchap.application.find_snvs.write_vcf_block", "input": dict(inp, pos=pos), "observed": {"REF": g[0], "ALT": g[1], "REFMASKED": g[2]}, "expected": {"REF": refc, "ALT (any order among equal means)": ["ACGT"[a] for a in sorted(alts, key=lambda a: -mean[a])], "REFMASKED": bool(masked)}, "how": "allele listed iff individual (ind-maf & ind-mad in the same sample, min-ind samples) and population thresholds are met"})
+        samples_out.append({"positions": L, "sample_depths": list(depths_per_sample), "threshold_sets": len(grid)})
+    finally:
+        shutil.rmtree(tmp, ignore_errors=True)
+    return {"bound": "3 synthetic samples (depth 5/50/40) x 12 positions x threshold grid", "evaluations": ev, "distinct_nontrivial": nontriv, "failures": fails, "samples": samples_out, "exhaustive": False}
+
+
+CHECKS = [check_depths, check_count_kernels, check_thresholds]
 REPLAY = {}
